@@ -42,6 +42,7 @@ CallClauses(ev) ==
     [] ev.call = "construct_bad" -> Clauses_construct_bad(ev)
     [] ev.call = "from_adjacency" -> Clauses_from_adjacency(ev)
     [] ev.call = "parse_uc"     -> Clauses_parse_uc(ev)
+    [] ev.call = "validate"     -> Clauses_validate(ev)
     [] OTHER -> [TRACE_unknown_call |-> FALSE]
 
 \* clauses index tables by position; if some logged table is not even well-shaped they are
